@@ -5,6 +5,33 @@ COMMON_NOTE = ("Trusted base: Lean 4.33 kernel; axioms ⊆ {propext, Classical.c
                "generated tables (harness/gen_tables.py). ")
 
 CLAIMED = {
+    "C01": {
+        "text": "Theorems (Lean, unbounded: any number of committers, every interleaving of their storage-level steps, any clock incl. 0-ms "
+                "ticks and stale readings, data and metadata-only commits): serial — every pointer flip replaced exactly the version its new "
+                "version was derived from, the flips form one chain and the pointer names its head (local backend with exclusive lock, and CAS "
+                "backend with nothing assumed about the lock); final_is_fold — the table named by the pointer is the fold of the flipped "
+                "transactions in pointer order; ack_iff_flip — reflected iff past the commit point, never twice. serial_refuted is the "
+                "machine-checked witness of the defect found (equal-millisecond stamp) and was replayed on the library, then repaired. "
+                "Tie: real committers run as threads under a deterministic scheduler at storage-operation granularity (local and in-memory "
+                "CAS S3, shared and separate handles, frozen/coarse/real clocks); every trace must be accepted step by step by the Lean "
+                "transition system (values read, stamps written, outcomes) and the final table must be serializable w.r.t. acknowledgements.",
+        "design_ref": "§6 C01",
+        "note": "Exclusive-lock hypothesis for the local backend is C19's theorem + the kernel's flock contract. Manifest-level content of commits is "
+                "checked by the oracle (independent reader), the model abstracts a version to (stamp, applied transactions).",
+        "technique": "Lean 4 invariant over a transition system (all interleavings) + trace acceptance of scheduled real executions",
+    },
+    "C08": {
+        "text": "Theorems (Lean, unbounded): ack_replaced_validated — on a CAS backend whose ETag comes from the read that validation used, "
+                "with NO assumption on the lock (a lock granting everyone subsumes paused holders, lapsed leases, takeovers; a delayed PUT is a "
+                "late flip step), every acknowledged flip replaced the version it validated against and was derived from; "
+                "lost_lock_is_conflict — a failed fencing check yields a conflict, no flip. two_reads_refuted is the machine-checked witness of "
+                "the defect found (validation read ≠ ETag read), replayed on the library with a no-exclusion lock, then repaired. Tie: scheduled "
+                "real committers on the in-memory CAS S3 with a free lock / the real CAS lock / injected lease lapses; trace acceptance + "
+                "serializability oracle.",
+        "design_ref": "§6 C08",
+        "note": "S3 conditional-PUT semantics are those of harness/fakes3.py; the lock object's own protocol is C19's subject.",
+        "technique": "Lean 4 invariant over the CAS transition system with an arbitrary lock + trace acceptance of scheduled real executions",
+    },
     "C15": {
         "text": "Theorems (Lean, unbounded): wf_step / wf_history — every committed operation (append or delete commit with or without expiry, "
                 "expiry alone, snapshot deletion, any retention value, any metadata-log bound, any — also out-of-order or equal — timestamps) "
